@@ -5,6 +5,7 @@ let table : (Stdlib.String.t * (z list -> z list)) list = [   (* Stdlib.: the ex
   ("kernel", run_kernel);
   ("frag", run_frag);
   ("defaults", run_defaults);
+  ("metaviews", run_metaviews);
   ("commands", run_commands);
   ("savefs", run_savefs);
   ("rset", run_rset);
